@@ -546,7 +546,7 @@ def run(ck, F, tier):
     ck.explanation = ('C11 decided for the whole Q x L domain structurally: A the stored coefficient has the canonical form of the H.263 reconstruction formula '
                       '(equal functions on every input), depends only on L and Q; B the interval reading shows no intermediate overflow for Q in [0,31], '
                       'L in [-1024,1023], and those ranges are established at their producers (escape widths W); C the INTRADC mapping folded over all 256 codes; '
-                      'D the DQUANT table and the clamped update. The "decoded samples" observation point belongs to C02.')
+                      'D the DQUANT table and the clamped update; C10.E no stored coefficient is dropped by the sparse-block classification. The "decoded samples" observation point belongs to C02.')
     ck.assumptions += ['read_signed_bits(w) yields a w-bit two\'s complement value (assumed_returns in tables/contracts.json)']
     a_formula(ck, F)
     b_no_overflow(ck, F)
@@ -560,3 +560,7 @@ def run(ck, F, tier):
     s = Scoped(ck, 'MB.')
     mblayer.rule_v(s, F, ['tcoef'])
     mblayer.rule_syntax(s, F, ['dquant', 'block'])
+    # a coefficient that is stored but then dropped by the sparse-shape classification is not "reconstructed at its position": the block
+    # leaves inverse_rle as Horiz / Vert / Dc / Zero only when every non-zero stored coefficient lies in that shape (C10's rule E)
+    from . import c10
+    c10.rule_e(Scoped(ck, 'C10.'), F)
